@@ -157,6 +157,20 @@ func c01Gen(rng *verifsim.RNG, idx int, tier string) *Plan {
 			p.Actions = append(p.Actions, Action{At: at, Kind: "echo", If: iw.Name, Src: "fe80::ec:0"})
 		}
 	}
+	if rng.Bool(0.12) {
+		// An RA build whose address dump has been answered by the kernel but is
+		// slow to arrive; the addresses change; another RA is asked for and built
+		// meanwhile. Each is made from a listing of its own.
+		iw := n.Ifaces[rng.Intn(len(n.Ifaces))]
+		t0 := int64(rng.Dur(time.Second, horizon/2)) + 222
+		p.Faults = append(p.Faults, Fault{Seam: "rtnl.addr", If: iw.Name, From: t0, Count: 1, Hold: "hl", Mode: "sampled"})
+		a, b := rsAction(t0+1000, hostAddr(0)), rsAction(t0+650*nsMs, hostAddr(1))
+		a.If, b.If = iw.Name, iw.Name
+		p.Actions = append(p.Actions, a,
+			Action{At: t0 + 600*nsMs, Kind: "addrs", If: iw.Name, Addrs: pickAddrs(rng, iw.LL, 6)},
+			b,
+			Action{At: t0 + 1300*nsMs, Kind: "release", Hold: "hl"})
+	}
 	// The OS lists in any order and may repeat itself: not a fault.
 	if rng.Bool(0.5) {
 		p.Faults = append(p.Faults, Fault{Seam: "rtnl.addr", Count: -1, Mode: "perm", Arg: int64(rng.Intn(1000))})
